@@ -67,6 +67,7 @@ struct Args {
   int shard_i, shard_n;
   long seed;
   double deadline_s;
+  bool deadline_check_every_cell = false;  // set by harnesses whose cells are expensive (C14: one cell = one explored program)
   Args() : tier("quick"), shard_i(0), shard_n(1), seed(0), deadline_s(0) {}
   void parse(int argc, char** argv) {
     for (int i = 1; i < argc; ++i) {
@@ -110,12 +111,17 @@ struct Report {
   // exhaustive and still exits 0 -- a cap is reported as a cap.
   std::chrono::steady_clock::time_point t_start = std::chrono::steady_clock::now();
   bool deadline_hit = false;
+  // true once the deadline has passed (also usable inside a long cell, e.g. the schedule explorer of C14)
+  bool past_deadline() {
+    if (args.deadline_s <= 0) return false;
+    if (deadline_hit) return true;
+    double el = std::chrono::duration<double>(std::chrono::steady_clock::now() - t_start).count();
+    if (el > args.deadline_s) { deadline_hit = true; exhaustive = false; notes.push_back("deadline of " + std::to_string((long)args.deadline_s) + " s reached at cell " + std::to_string(cell_index) + ": remaining cells skipped"); }
+    return deadline_hit;
+  }
   bool mine() {
     long k = cell_index++;
-    if (args.deadline_s > 0 && !deadline_hit && (k & 15) == 0) {
-      double el = std::chrono::duration<double>(std::chrono::steady_clock::now() - t_start).count();
-      if (el > args.deadline_s) { deadline_hit = true; exhaustive = false; notes.push_back("deadline of " + std::to_string((long)args.deadline_s) + " s reached at cell " + std::to_string(k) + ": remaining cells skipped"); }
-    }
+    if (args.deadline_s > 0 && !deadline_hit && ((k & 15) == 0 || args.deadline_check_every_cell)) past_deadline();
     if (deadline_hit) { ++skipped; return false; }
     return (k % args.shard_n) == args.shard_i;
   }
